@@ -134,13 +134,26 @@ Ltac unit_tr_main :=
       repeat match goal with H : ?n * ?n = _ |- _ => rewrite <- H; clear H end;
       field; auto)))) end.
 Ltac unit_poly := unfold UnitQ; first [ solve [poly_nsatz] | solve [field_simplify_eq; [ poly_nsatz | auto ]] | solve [field_simplify_eq; poly_nsatz] ].
+(* the same, independent of how the quotient is written: with m the outer root (m*m = Y), the scaled entries e_i*m are the
+   un-normalised components, their squares sum to Y (field), hence the squares of the e_i sum to 1 *)
+Ltac unit_sem :=
+  match goal with Hm : ?m * ?m = ?Y |- UnitQ (?e0, ?e1, ?e2, ?e3) =>
+    let E := fresh "Esum" in
+    assert (E : (e0*m)*(e0*m) + (e1*m)*(e1*m) + (e2*m)*(e2*m) + (e3*m)*(e3*m) = Y)
+      by (clear Hm; repeat match goal with H : ?n * ?n = ?X |- context [?X] => rewrite <- H end; field; auto);
+    rewrite <- Hm in E; unfold UnitQ;
+    let F := fresh "Fsum" in
+    assert (F : (e0*e0 + e1*e1 + e2*e2 + e3*e3) * (m * m) = (e0*m)*(e0*m) + (e1*m)*(e1*m) + (e2*m)*(e2*m) + (e3*m)*(e3*m)) by ring;
+    rewrite E in F;
+    apply (Rmult_eq_reg_r (m * m)); [ rewrite F; ring | apply Rmult_integral_contrapositive_currified; assumption ]
+  end.
 (* a named root m (m*m = Y, m > 0) whose radicand Y is identically 1 under the polynomial hypotheses: m*m = 1 *)
 Ltac sqrt_sq_one :=
   match goal with H : ?m * ?m = ?Y |- _ =>
     let E := fresh "Eone" in
     assert (E : m * m = 1) by (rewrite H; clear H; first [ solve [poly_nsatz] | solve [field_simplify_eq; [ poly_nsatz | auto ]] ]);
     clear H end.
-Ltac unit_tr := open_tr; pc_facts; cs_gen; sqrt_all; first [ unit_tr_main | unfold UnitQ; lra | unit_poly ].
+Ltac unit_tr := open_tr; pc_facts; cs_gen; sqrt_all; first [ unit_tr_main | unfold UnitQ; lra | unit_sem | unit_poly ].
 
 Lemma C01_unit : forall q, pc_tr_unit Rops q -> UnitQ (tr_unit Rops q).
 Proof. unit_tr. Qed.
